@@ -124,7 +124,9 @@ CopyTo(s, o, sp) == [Blank(s, sp) EXCEPT !.life[sp] = IF s.key[o] # NoKey THEN "
                                          !.pk[sp] = s.pk[o], !.v[sp] = s.v[o], !.exp[sp] = s.exp[o], !.mod[sp] = s.mod[o], !.cv[sp] = s.cv[o]]
 DoPickle(s, o) ==
   IF Attached(s, o) THEN LET sp == SpareOf(s) IN IF sp = NoObj \/ sp = o THEN R(s, "nospare") ELSE R(CopyTo(s, o, sp), "new:" \o sp)
-  ELSE R([s EXCEPT !.wasdel[o] = FALSE], "self")        \* the copy replaces the original under the same name
+  ELSE \* the copy replaces the original under the same name; the transaction snapshots only know the original
+       R([s EXCEPT !.wasdel[o] = FALSE,
+                   !.tx = [i \in 1..Len(s.tx) |-> [s.tx[i] EXCEPT !.new = @ \ {o}, !.dirty = @ \ {o}, !.deleted = @ \ {o}, !.ksw[o] = NoKey]]], "self")
 \* ------------------------------------------------------------------ post-processing of every step
 NonFlushers == {"Add", "SetV", "Delete", "Expire", "ExpireAll", "ExpireV", "Rollback", "Close", "ExtSet", "ExtDel", "DropRef", "Pickle",
                 "Expunge", "MakeTransient"}
@@ -159,10 +161,14 @@ NextX == ~st.taint /\
            /\ \E x \in Vals : StepX("SetV", <<o, x>>, DoSetV(Clear(st), o, x)))
        \/ (On("SetPk") /\ st.life[o] # "deleted" /\ ~(st.life[o] = "detached" /\ ~Loaded(o))
            /\ \E k \in Keys : k # st.pk[o] /\ StepX("SetPk", <<o, k>>, DoSetPk(Clear(st), o, k)))
-       \/ (RowExists(o) /\ ~(st.wasdel[o] /\ st.life[o] \in {"deleted", "detached"}) /\ StepX("Delete", <<o>>, DoDelete(Clear(st), o)))
+       \* (the base flush loads every not fully loaded object before its DELETE; the ORM does so only for expired primary keys:
+       \*  an object with only v expired is not deleted)
+       \/ (RowExists(o) /\ ~(st.wasdel[o] /\ st.life[o] \in {"deleted", "detached"}) /\ st.exp[o] # {"v"} /\ StepX("Delete", <<o>>, DoDelete(Clear(st), o)))
        \/ (On("Expunge") /\ StepX("Expunge", <<o>>, DoExpunge(Clear(st), o)))
        \/ (On("Expire") /\ StepX("Expire", <<o>>, DoExpire(Clear(st), o)))
-       \/ (On("ExpireV") /\ StepX("ExpireV", <<o>>, DoExpireV(Clear(st), o)))
+       \* partial expiry of fully loaded objects that are not marked deleted (see above; an object with expired id AND the
+       \* modified flag but no net change is loaded by the real flush, which the base module does not model)
+       \/ (On("ExpireV") /\ (InMapS(st, o) => st.exp[o] = {} /\ o \notin st.sdel) /\ StepX("ExpireV", <<o>>, DoExpireV(Clear(st), o)))
        \/ (On("Refresh") /\ StepX("Refresh", <<o>>, DoRefresh(Clear(st), o)))
        \/ (On("FRefresh") /\ ~st.needrb /\ StepX("FRefresh", <<o>>, FThen(Clear(st), LAMBDA s : DoRefresh(s, o))))
        \/ (On("Read") /\ ReadOk(o) /\ StepX("Read", <<o>>, DoRead(Clear(st), o)))
@@ -293,5 +299,7 @@ PickleCopy == [][ IsPickle =>
     /\ \A x \in Objs \ {c} : st'.life[x] = st.life[x] /\ st'.v[x] = st.v[x] /\ st'.pk[x] = st.pk[x] /\ st'.exp[x] = st.exp[x]
     /\ st'.imap = st.imap /\ st'.work = st.work /\ last'.sql = 0 ]_vars
 PickleSelf == [][ (last'.a = "Pickle" /\ last'.ret = "self") =>
-    LET o == last'.arg[1] IN V(st') = V([st EXCEPT !.wasdel[o] = FALSE]) ]_vars
+    LET o == last'.arg[1] IN
+    /\ [V(st') EXCEPT !.tx = <<>>] = [V(st) EXCEPT !.wasdel[o] = FALSE, !.tx = <<>>] /\ Len(st'.tx) = Len(st.tx)
+    /\ \A i \in 1..Len(st.tx) : o \notin st'.tx[i].new \cup st'.tx[i].dirty \cup st'.tx[i].deleted /\ st'.tx[i].snap = st.tx[i].snap ]_vars
 =============================================================================
